@@ -69,6 +69,52 @@ VOCAB = ("decode_expression", "decode_node", "close", "read_natural", "finalize_
 
 
 
+def eof_is_error(F, rep):
+    """the value decoders read the witness stream bit by bit: wherever they pull an item straight from the iterator
+    (`bits.next()`), running out of input is an error, never a 0 bit — `None` leads only to error exits (or is turned into
+    one with ok_or + `?`).  Reads through BitIter's fallible readers (read_bit()?, read_u8()?) carry the error themselves."""
+    n = 0
+    for nm in ("from_compact_bits", "from_padded_bits"):
+        f0 = F.fn("simplicity::value::Value::" + nm)
+        if f0 is None:
+            rep.anchor("C02.must", "Value::" + nm)
+            continue
+        f = F.inlined(f0, ("next", "ok_or", "ok_or_else", "read_bit"))
+        T = Terms(f)
+        errs = flow.error_blocks(f)
+        for cs in f.calls():
+            if cs.name != "next" or not cs.args or cs.trait != "std::iter::Iterator" and not (cs.decl or "").startswith("std::iter::Iterator"):
+                continue
+            if 1 not in vcc.param_roots(T.operand(cs.args[0]), fm):
+                continue
+            n += 1
+            key = "Value::%s: end of stream" % nm
+            d = cs.dest[0]
+            # (a) handed to ok_or/ok_or_else whose result is propagated
+            conv = [c for c in f.calls() if c.name in ("ok_or", "ok_or_else") and c.args and c.args[0].get("k") in ("move", "copy") and c.args[0]["p"][0] == d]
+            if conv and all(flow.flows_to_branch(f, c.dest[0]) for c in conv):
+                rep.ok("C02.must", key, "next().ok_or(..)?")
+                continue
+            # (b) matched: the None case reaches no successful return
+            sws = [b for b in f.rpo() if (fm.switch_info(f, b) or [None, ""])[1].endswith("option::Option") and fm.switch_info(f, b)[0][0] == d]
+            bad = None
+            for b in sws:
+                si = fm.switch_info(f, b)
+                none_t = si[2].get("None", f.blocks[b]["t"]["otherwise"] if "None" in si[4] else None)
+                if none_t is None:
+                    continue
+                reach = f.reachable(none_t, avoid=errs) if none_t not in errs else set()
+                if any(f.blocks[x]["t"]["k"] == "return" for x in reach):
+                    bad = b
+            if sws and bad is None:
+                rep.ok("C02.must", key, "None leads to an error exit")
+            else:
+                rep.violation("C02.must", "%s:eof" % nm, "Value::%s pulls a bit with Iterator::next() and goes on when the stream has ended (None is not turned into "
+                              "an error): a truncated witness stream is read as if it were padded with zero bits, and decoding it does not re-encode "
+                              "to the input" % nm, cs.where())
+    return n
+
+
 ITER_VERDICT = ("all", "any", "try_for_each", "try_fold", "find", "position")
 
 
@@ -274,6 +320,7 @@ def run(ctx, rep):
         else:
             rep.violation("C02.must", "decode_expression:index", "decode_node is not given nodes.len() as the node's index", de.where())
 
+    eof_is_error(F, rep)
     cl = F.fn(CLOSE)
     if cl is None:
         rep.anchor("C02.must", CLOSE)
